@@ -12,7 +12,7 @@ obligations) that mention it stop compiling, with the message in the Coq error; 
 
 Subset.  Statements: docstring, pass, `x = e`, `x op= e`, `a, b, c = e`, `self._value = e` / `self._prefixlen = e` (recorded as
 the new state), if/elif/else, return, raise Name(...) (message ignored), `while`, `for x in <list or iterator>`, break, continue,
-`l.append(e)`, `x = l.pop()`, and the one try form `try: x = [IPNetwork(]_iter_next(it)[)] ... except StopIteration: raise E`.
+`l.append(e)`, `x = l.pop()`, `x._prefixlen = e` on an owned local object, and the one try form `try: x = [IPNetwork(]_iter_next(it)[)] ... except StopIteration: raise E`.
 Expressions: int literals, + - * // % & | ^ << >> **, unary -, not/and/or, (chained) comparisons on ints, int(e), bool(e),
 min/max of two ints, tuples, None, list literals, `a + b` on lists, `l[::-1]`, `t[k]` with a literal k on a tuple or on a list
 literal that is never mutated, iter(l), the fixed attribute environment ATTRS, reads of translated properties / calls of
@@ -37,6 +37,11 @@ Reading of the new constructs (all of it is trusted translator input, with the t
   kinds; inside each arm isinstance tests are decided from the class hierarchy of the parsed module (OAddr = IPAddress,
   ONet = IPNetwork, ORng = IPRange incl. IPGlob, OOther = no BaseIP) and attribute reads go to the constructor's fields.
   The final fallback `return <Class>(other) in self` (strings etc.) is OUT OF SCOPE: it becomes `Raise Unsupported` in the OOther arm.
+* `x._prefixlen = e` / `x._value = e` on a LOCAL IPNetwork object is a record update `{| nver := nver x; ... |}` that bypasses
+  the setter.  Accepted only if x is owned: every binding of x is a constructor result (mk_net, or a translated property all
+  of whose results are mk_net calls) and every use of x is `x.<attribute>` (it is never stored, passed, returned or given a
+  second name); checked syntactically over the whole function.  From then on a read of a translated property of x whose
+  translation relied on the class invariant is preceded by the test 0 <= prefixlen <= width -> else `Raise Unsupported`.
 * `2 ** e` with an exponent that depends on a parameter gets the guard `e < 0 -> Raise Unsupported` (Python would build a float).
 Conventions (DESIGN 3): Python ints are Z; a shift count that depends on a parameter gets CPython's `ValueError: negative shift
 count` guard, a count built from object state and literals only is taken as non-negative (class invariant 0 <= prefixlen <=
@@ -59,7 +64,7 @@ FIELD = {"self._value": "v", "self._prefixlen": "p"}      # assignable state att
 # (receiver class, method, {parameter: type}); the method is looked up through the receiver's bases
 WHITELIST = [(c, m, {}) for c, ms in (
     ("IPNetwork", "_hostmask_int _netmask_int first last size network broadcast netmask hostmask ip cidr key sort_key "
-                  "__iadd__ __isub__ version prefixlen"),
+                  "__iadd__ __isub__ version prefixlen supernet"),
     ("BaseIP", "is_ipv4_mapped is_ipv4_compat version"),
     ("IPAddress", "key sort_key is_hostmask is_netmask __int__ __index__ __nonzero__ __iadd__ __isub__ __add__ __sub__ "
                   "__rsub__ __or__ __and__ __xor__ __lshift__ __rshift__ ipv4 version netmask_bits"),
@@ -76,8 +81,10 @@ FILE_OF = {"spanning_cidr": "pysrc_span_gen.v", "cidr_partition": "pysrc_partiti
            "cidr_exclude": "pysrc_partition_gen.v", "iprange_to_cidrs": "pysrc_iprange_gen.v"}
 # fuel of every `while` loop: (receiver, function, loop number) -> (Python int expression evaluated at loop entry, constant);
 # the loop runs with fuel `Z.to_nat <expression> + <constant>` -- the hand model's fuel (Model/Ip.v nb_loop, Span.v span_loop,
-# Partition.v part_loop).  A while loop without an entry is untranslatable.
+# Partition.v part_loop,
+# Subnet.v supernet_loop).  A while loop without an entry is untranslatable.
 FUEL = {("IPAddress", "netmask_bits", 1): ("self._module.width", 2),
+        ("IPNetwork", "supernet", 1): ("self._module.width", 2),
         (None, "spanning_cidr", 2): ("width", 1),
         (None, "cidr_partition", 1): ("target_module_width", 1)}
 # documented skip list: (receiver, method) -> reason.  Nothing of the requested whitelist is skipped.
@@ -168,6 +175,8 @@ def assigned_names(stmts):
         for n in ast.walk(st):
             if isinstance(n, ast.Name) and isinstance(n.ctx, ast.Store):
                 found.append((n.lineno, n.col_offset, n.id))
+            elif isinstance(n, ast.Attribute) and isinstance(n.ctx, ast.Store) and isinstance(n.value, ast.Name):
+                found.append((n.lineno, n.col_offset, n.value.id))             # x._prefixlen = e rebinds the local object x
             elif isinstance(n, ast.Call) and isinstance(n.func, ast.Attribute) and isinstance(n.func.value, ast.Name):
                 found.append((n.lineno, n.col_offset, n.func.value.id))        # any method call on a name may mutate it
             elif isinstance(n, ast.Call) and dotted(n.func) == "_iter_next" and n.args and isinstance(n.args[0], ast.Name):
@@ -403,9 +412,11 @@ class Fn:
             self.attrs["self._prefixlen"] = ("int", "p")
         self.used, self.pre, self.nohoist, self.nfresh, self.size = {}, [], 0, 0, 0
         self.deps, self.loops, self.loopmemo = set(), [], {}
+        self.assumes_inv = False        # some shift count built from object state only was taken as non-negative (class invariant)
+        self.freshbind = set()          # assignments `x = <constructor result>`: x holds an object nobody else can see
         loops = sorted((n for n in ast.walk(self.f) if isinstance(n, (ast.For, ast.While))), key=lambda n: (n.lineno, n.col_offset))
         self.loopno = {id(n): i + 1 for i, n in enumerate(loops)}
-        env = {"@taint": frozenset(), "@mut": None, "@break": None, "@continue": None}
+        env = {"@taint": frozenset(), "@mut": None, "@break": None, "@continue": None, "@raw": frozenset()}
         self.params = []
         for x in a.args[(0 if recv is None else 1):]:
             if recv is None and x.arg not in ptypes:
@@ -475,6 +486,7 @@ class Fn:
         if FILES.index(d.file) > FILES.index(self.file):
             bad(node, "%s lives in %s, which comes after %s" % (mangle(recv, name), d.file, self.file))
         self.deps.add((recv, name))
+        self.assumes_inv |= d.assumes_inv
         if len(args) != len(d.params):
             bad(node, "unsupported argument list for %s" % mangle(recv, name))
         for (ty, _), (_, pty) in zip(args, d.params):
@@ -527,6 +539,10 @@ class Fn:
             return ("int", fields[tail])
         r = self.mod.lookup(cls, tail) if "." not in tail else None
         if r and r[2]:
+            if head in env["@raw"] and self.tr.get(cls, tail, node).assumes_inv:
+                # the object's _prefixlen was assigned directly (no setter): the invariant the callee's translation relies on
+                # is tested here; where it fails Python raises from inside the property, which is not translated
+                self.hoist(node, ("guard", "(negb ((0 <=? (nplen %s)) && ((nplen %s) <=? (width (nver %s)))))" % (t, t, t), "Unsupported"))
             return self.generated(node, cls, tail, state, [])
         bad(node, "attribute %s of %s %s" % (tail, "an" if cls[0] == "I" else "a", cls))
 
@@ -624,6 +640,8 @@ class Fn:
             nonneg_lit = isinstance(node.right, ast.Constant) and isinstance(node.right.value, int) and node.right.value >= 0
             if isinstance(node.op, (ast.LShift, ast.RShift)) and not nonneg_lit and self.tainted(node.right, env):
                 self.hoist(node, ("guard", "(%s <? 0)" % b, "ValueError"))      # CPython: negative shift count
+            elif isinstance(node.op, (ast.LShift, ast.RShift, ast.Pow)) and not nonneg_lit:
+                self.assumes_inv = True                                         # class invariant 0 <= prefixlen <= width
             if isinstance(node.op, ast.Pow) and not nonneg_lit and self.tainted(node.right, env):
                 self.hoist(node, ("guard", "(%s <? 0)" % b, "Unsupported"))     # a float for a negative exponent: outside the model
             if isinstance(node.op, (ast.FloorDiv, ast.Mod)) and not (isinstance(node.right, ast.Constant) and node.right.value != 0):
@@ -801,6 +819,15 @@ class Fn:
         return sum(isinstance(n.ctx, ast.Store) for n in uses) == 1 and all(
             isinstance(n.ctx, ast.Store) or id(n) in ok for n in uses) and name not in [a.arg for a in self.f.args.args]
 
+    def owned(self, x):
+        """does local x only ever hold objects this function made itself (every binding already translated as a constructor
+        result) and never escape (every read is x.<attribute>)?  Only then is `x._prefixlen = e` a plain update of x."""
+        bases = {id(n.value) for n in ast.walk(self.f) if isinstance(n, ast.Attribute)}
+        binds = [st for st in ast.walk(self.f) if isinstance(st, (ast.Assign, ast.AugAssign, ast.For, ast.With, ast.NamedExpr))
+                 and any(isinstance(n, ast.Name) and n.id == x and isinstance(n.ctx, ast.Store) and id(n) not in bases for n in ast.walk(st))]
+        return (all(id(st) in self.freshbind for st in binds) and x not in [a.arg for a in self.f.args.args]
+                and all(id(n) in bases for n in ast.walk(self.f) if isinstance(n, ast.Name) and n.id == x and isinstance(n.ctx, ast.Load)))
+
     def no_iterator_over(self, node, cn, env):
         """an iterator is translated as the (Coq name of the) list it runs over: that name must not be rebound while it lives"""
         for key, val in env.items():
@@ -863,12 +890,27 @@ class Fn:
             for (ty, t), cn in reversed(list(zip(items, names))):
                 ir = ("let", cn, t, ir)
             return self.wrap(pre, ir)
+        if (isinstance(tgt, ast.Attribute) and isinstance(tgt.value, ast.Name) and env.get(tgt.value.id, ("",))[0] == "net"
+                and tgt.attr in ("_value", "_prefixlen")):
+            x, old = tgt.value.id, env[tgt.value.id][1]              # x._prefixlen = e on a local object: a new record value for x
+            if not self.owned(x):
+                bad(s, "attribute assignment on %s, which may be visible under another name" % x)
+            e = self.int_(value, env)
+            pre = self.take_pre()
+            cn, env = self.bind_local(s, x, "net", env, value)
+            env["@raw"] = env["@raw"] | {x}
+            term = "{| nver := nver %s; nval := %s; nplen := %s |}" % (
+                old, e if tgt.attr == "_value" else "nval " + old, e if tgt.attr == "_prefixlen" else "nplen " + old)
+            return self.wrap(pre, ("let", cn, term, go(env)))
         r = self.rhs(value, env)
         pre, env = self.take_pre(), dict(env)
         path = dotted(tgt)
         if isinstance(tgt, ast.Name):
             x = tgt.id
             ty = r[1] if r[0] == "out" else r[0]
+            if r[0] == "out" and r[1] == "net" and isinstance(s, ast.Assign) and (
+                    r[2].startswith("(mk_net ") or any(self.tr.done[k].fresh and r[2].startswith("(%s " % mangle(*k)) for k in self.deps)):
+                self.freshbind.add(id(s))
             if is_list(ty) and isinstance(value, ast.Name):
                 bad(s, "a second name for a list (aliasing)")
             if r[0] == "out" and (r[1] == "obj" or is_value(r[1])):
@@ -1101,6 +1143,8 @@ class Fn:
             self.no_iterator_over(s, self.coqname(s, x), env)
             env2[x] = (env[x][0], self.coqname(s, x))
         env2["@taint"] = ienv["@taint"] - (set(assigned) - set(live))
+        env2["@raw"] = env["@raw"] | {n.value.id for st in s.body for n in ast.walk(st)
+                                      if isinstance(n, ast.Attribute) and isinstance(n.ctx, ast.Store) and isinstance(n.value, ast.Name)}
         if it and env[it][0][0] == "iter":
             if any(isinstance(n, ast.Break) for st in s.body for n in ast.walk(st)):
                 env2.pop(it)
@@ -1137,6 +1181,7 @@ class Fn:
         base = "(option %s)" % coqty(self.kind, self.f) if self.optional else coqty(self.kind, self.f)
         self.type = "outcome " + base if self.outcome else unparen(base)
         self.kind = "int" if self.kind == "self" else self.kind
+        self.fresh = bool(rets) and all(l[3] and str(l[2]).startswith("(mk_net ") for l in rets)   # every result is a new object
 
     def render(self, ir, ind, oc, optional=False):
         """text of an IR; oc: does the value live in `outcome`"""
